@@ -252,7 +252,9 @@ func (c *ctx) typeNameability() {
 		}
 		record(p.body)
 		if d := declOf(astx.Callee(info, p.check)); d != nil {
-			record(d.Body) // the helper the printer calls (a wrapper of the check, or the check itself)
+			// the helper the printer calls (a wrapper of the check, or the check itself), and what that helper
+			// records through (`g.noteHidden(name, err)`)
+			c.eachReachedBody(d, 1, record)
 		}
 		if len(written) == 0 {
 			c.s.Bad("G33", p.label+" keeps what the check finds", c.pos(p.check), "the result of the nameability check is not stored in the generator: it has no effect")
